@@ -67,7 +67,23 @@ class HandlerModel:
 
 
 class Snapshot:
-    pass
+    """abstract Flow.get_state() result; supports what Flow.modified() does with a state dict: d.get(k), d[k] = v, d != e"""
+
+    def get(self, key, default=None):
+        return getattr(self, key, default)
+
+    def __setitem__(self, key, value):
+        setattr(self, key, value)
+
+    def __eq__(self, other):
+        if not isinstance(other, Snapshot):
+            return False
+        for k in SNAPSHOT_KEYS:
+            if getattr(self, k) != getattr(other, k):
+                return False
+        return True
+
+    __hash__ = None
 
 
 def _flow_cls():
@@ -75,10 +91,13 @@ def _flow_cls():
     # the model flow borrows the real methods (their source is read from mitmproxy/flow.py)
     FlowModel.backup = mitmproxy.flow.Flow.backup
     FlowModel.revert = mitmproxy.flow.Flow.revert
+    FlowModel.modified = mitmproxy.flow.Flow.modified
 
 
 REQ_FIELDS = ["method", "scheme", "host", "path", "http_version", "port", "_text"]
 RESP_FIELDS = ["reason", "http_version", "status_code", "_text"]
+SNAPSHOT_KEYS = (["req_" + k for k in REQ_FIELDS] + ["req_headers", "req_trailers"] + ["resp_" + k for k in RESP_FIELDS]
+                 + ["resp_headers", "resp_trailers", "marked", "comment", "backup"])
 
 
 def snapshot_of(new, f):
@@ -431,7 +450,7 @@ def bounded(tier, seed):
     depth = 2 if tier == "quick" else 3
     b.rule = ("PUT /flows/<id> on the real mitmweb Application with edit documents built from ordered selections of a 26-entry menu of valid and invalid field edits "
               "(unknown field at each level, port 'x'/null, status code 'x', header/trailer lists of wrong arity, non-string content, lone-surrogate method/host) x "
-              "{fresh flow, flow with an earlier successful edit}; checked: valid document => 200 and every field applied; rejected document (status >= 400) => "
+              "{fresh flow, flow with an earlier successful edit}, plus: an accepted single-field edit followed by a rejected document whose first entry restores that field's original value; checked: valid document => 200 and every field applied; rejected document (status >= 400) => "
               "flow state (get_state without the backup slot) exactly as before the request; distinct = (entries in order, prior edit); non-trivial = document mixes valid and invalid entries")
     b.bound = f"all ordered selections of <= {depth} menu entries (documents with a repeated key are skipped) + documents whose section entry is not an object"
     b.exhaustive = True
@@ -491,6 +510,27 @@ def bounded(tier, seed):
                     continue
                 for prior in (False, True):
                     run(entries, doc, prior, (tuple(e[0] for e in entries), prior))
+        # ---- an earlier accepted edit, then a rejected edit whose valid prefix exactly undoes it (the flow then equals its
+        #      backup again although it is not the state from before the rejected request)
+        undo = [("request", "method", "PATCH"), ("request", "path", "/edited"), ("response", "code", 404), ("response", "reason", "Edited"), ("", "comment", "first"), ("", "marked", ":red_circle:")]
+        for sec, key, newval in undo:
+            for bad in [e for e in MENU if e[4] is False and not (e[1] == sec and e[2] == key)]:
+                f = fresh(False)
+                original = _read_field(f, sec, key)
+                first = {key: newval} if sec == "" else {sec: {key: newval}}
+                r1 = w.request("PUT", "/flows/42", json_body=first)
+                second = _doc_of([("undo", sec, key, original, True), bad])
+                b.case(("undo", sec, key, bad[0]), nontrivial=True)
+                if r1.code != 200 or second is None:
+                    continue
+                before = _core(f.get_state())
+                was_modified = f.modified()
+                r2 = w.request("PUT", "/flows/42", json_body=second)
+                inp = {"first_edit": first, "rejected_edit": second}
+                if r2.code < 400:
+                    b.fail("put.invalid_document_rejected", inp, f"status {r2.code}")
+                elif _core(f.get_state()) != before or f.modified() != was_modified:
+                    b.fail("put.atomic.rejected_edit_undoing_an_earlier_one", inp, f"status {r2.code}; {sec}.{key} is now {_read_field(f, sec, key)!r}, was {newval!r}")
         for doc in ({"request": 5}, {"response": "x"}, {"request": {"method": "PUT"}, "response": None}, {"request": ["method"]}, {"marked": ":red_circle:", "request": 7}):
             for prior in (False, True):
                 f = fresh(prior)
